@@ -111,11 +111,36 @@ def make_arg_case(rng):
     s01 = rng.choice([' ', '\n', '\n\n']) + op
     s12 = rng.choice([' ', '\n', '  '])
     s23 = rng.choice(['\n', ' \n', '\n  ', '', ' ']) + '}' + rng.choice(['\n', ' ', '\n\n', ' \n', '\n \n'])
+    if rng.random() < 0.3:
+        # the argument ends with a control word: the blank behind the closing brace does not follow the control word
+        s23 = rng.choice(['\\zzz', ' \\zzz', '\\foo', '\\relax']) + '}' + rng.choice([' ', '\n', ' \n', '  '])
     s34 = rng.choice([' ', '\n'])
     src = pre + w[0] + s01 + w[1] + s12 + w[2] + s23 + w[3] + s34 + w[4] + rng.choice(['', '\n'])
     if pre and op == '\\hm{x}{':
         pass
     return {'src': src, 'opts': {'pack': '*', 'lang': ''}, 'multi': False, 'kind': 'flow-arg', 'words': w, 'rels': [], 'seps': [s01, s12, s23, s34]}
+
+def make_body_case(rng):
+    """a macro of the document whose body ENDS with a control word, called with a braced argument and followed by white space
+    (recorded known finding: the blank behind the call is swallowed by the control word of the body)"""
+    names = gen.Names(rng)
+    w = [names.word() for _ in range(4)]
+    cw = rng.choice(['\\zzz', '\\relax', '\\foo'])
+    pre = rng.choice(['\\newcommand{\\hk}[1]{#1%s}\n' % cw, '\\newcommand{\\hk}[1]{#1 %s}\n' % cw, '\\def\\hk#1{#1%s}\n' % cw])
+    s12 = rng.choice([' ', '\n'])
+    src = pre + w[0] + ' \\hk{' + w[1] + '}' + s12 + w[2] + ' ' + w[3]
+    return {'src': src, 'opts': {'pack': '*', 'lang': ''}, 'multi': False, 'kind': 'flow-body', 'words': w, 'rels': [],
+            'seps': [' \\hk{', '}' + s12, ' ']}
+
+def body_final_cw_class(src):
+    """class of the known finding, decided from the source alone: a definition whose body ends with a control word, and a call
+    of that macro with a braced argument that is followed by white space"""
+    for m in re.finditer(r'\\(?:newcommand\*?\{?(\\[A-Za-z]+)\}?(?:\[\d\])?(?:\[[^\]]*\])?|def(\\[A-Za-z]+)[^{]*)\{([^{}]*)\}', src):
+        name = m.group(1) or m.group(2)
+        body = m.group(3)
+        if re.search(r'\\[A-Za-z]+\s*$', body) and re.search(re.escape(name) + r'(?:\{[^{}]*\})+\s', src[m.end():]):
+            return True
+    return False
 
 def expected_rel(sep):
     """read a separator the way TeX does (independent second computation used by judge)"""
@@ -208,7 +233,8 @@ def run(ctx):
     n = ctx.scale(3000, 60000)
     rng = ctx.rng
     cases = [make_case(rng) for _ in range(n)]
-    cases += [make_arg_case(rng) for _ in range(max(100, n // 15))]
+    cases += [make_arg_case(rng) for _ in range(max(300, n // 8))]
+    cases += [make_body_case(rng) for _ in range(20)]
     cases += [make_detached_case(rng) for _ in range(max(600, n // 5))]
     ctx.stats['_rule'] = ('sequences of unique words separated by random layouts of blanks, tabs, line breaks, blank lines, comment lines, '
                           'vanishing constructs (labels, index entries, unknown macros, skipped regions); expected relation glued / same paragraph / '
@@ -221,6 +247,9 @@ def run(ctx):
             ctx.count('rel_' + expected_rel(s))
         fails = judge(c, r)
         if fails:
+            if body_final_cw_class(c['src']) and any(k['id'] == 'body-final-control-word' for k in ctx.known):
+                ctx.known_hits.setdefault('body-final-control-word', {'what': next(k['line'] for k in ctx.known if k['id'] == 'body-final-control-word'), 'count': 0})['count'] += 1
+                continue
             ctx.violation(fails[0], src=c['src'], opts=c['opts'], words=c['words'], seps=c['seps'])
         if len(ctx.samples) < 4:
             ctx.sample({'src': c['src'], 'out': r.get('txt')})
